@@ -1,0 +1,24 @@
+//go:build verif
+
+// Package verifhook is an instrumentation point for external runtime monitors
+// (build tag "verif"): a monitor installs one function that is called at named points.
+package verifhook
+
+import "sync/atomic"
+
+var fn atomic.Value // func(point string, arg interface{})
+
+// Set installs (or, with nil, removes) the monitor's function.
+func Set(f func(point string, arg interface{})) {
+	if f == nil {
+		f = func(string, interface{}) {}
+	}
+	fn.Store(f)
+}
+
+// At calls the installed function, if any.
+func At(point string, arg interface{}) {
+	if f, ok := fn.Load().(func(string, interface{})); ok && f != nil {
+		f(point, arg)
+	}
+}
